@@ -39,6 +39,10 @@ func c02Scenarios(tier string) []*Scenario {
 			rpcs = append(rpcs, RPC{Kind: "cs", Client: []string{"S0", "C", "R*", "R"}, Handler: []string{"r*", ret}})
 			rpcs = append(rpcs, RPC{Kind: "cs", Client: []string{"S0", "C", "R*", "R"}, Handler: []string{"r*", "s0", ret}})
 			rpcs = append(rpcs, RPC{Kind: "bd", Client: []string{"S0", "C", "R*", "R"}, Handler: []string{"r*", "s0", ret}})
+			// Header() first: it may consume the very first frame, which can be the error
+			rpcs = append(rpcs, RPC{Kind: "ss", Client: []string{"S0", "C", "H", "R*", "R"}, Handler: []string{"r", ret}})
+			rpcs = append(rpcs, RPC{Kind: "cs", Client: []string{"S0", "C", "H", "R*", "R"}, Handler: []string{"r*", ret}})
+			rpcs = append(rpcs, RPC{Kind: "bd", Client: []string{"S0", "C", "H", "R*", "R"}, Handler: []string{ret}})
 			for _, rpc := range rpcs {
 				add(tr, "", rpc)
 				if ret == "ret:st:5" || (tr == "inproc" && ret != "ret:canceled") {
